@@ -4,6 +4,7 @@ import (
 	"fmt"
 	"reflect"
 	"sort"
+	"strings"
 )
 
 // Alteration is one single-point change of a value found by a reflective walk:
@@ -22,8 +23,17 @@ func Alterations(ptr any) []Alteration {
 	return out
 }
 
+// omitEmptyField is set while walking a struct field tagged omitempty: absent and empty are then the same
+// metadata (neither is written), so swapping them is no alteration.
+var omitEmptyField bool
+
 func alterWalk(v reflect.Value, path string, commit func(), out *[]Alteration) {
+	omit := omitEmptyField
+	omitEmptyField = false
 	add := func(name string, f func()) {
+		if omit && (name == "nil-to-empty" || name == "empty-to-nil") {
+			return
+		}
 		*out = append(*out, Alteration{Name: path + ":" + name, Apply: func() { f(); commit() }})
 	}
 	switch v.Kind() {
@@ -62,6 +72,7 @@ func alterWalk(v reflect.Value, path string, commit func(), out *[]Alteration) {
 			if f.Anonymous {
 				p = path
 			}
+			omitEmptyField = strings.Contains(f.Tag.Get("json"), ",omitempty")
 			alterWalk(v.Field(i), p, commit, out)
 		}
 	case reflect.Slice:
@@ -90,6 +101,12 @@ func alterWalk(v reflect.Value, path string, commit func(), out *[]Alteration) {
 			})
 		}
 		add("append-zero", func() { vv.Set(reflect.Append(vv, reflect.Zero(vv.Type().Elem()))) })
+		// absent (nil, written as null) versus present and empty
+		if v.IsNil() {
+			add("nil-to-empty", func() { vv.Set(reflect.MakeSlice(vv.Type(), 0, 0)) })
+		} else if n == 0 {
+			add("empty-to-nil", func() { vv.Set(reflect.Zero(vv.Type())) })
+		}
 		for i := 0; i < n; i++ {
 			alterWalk(v.Index(i), fmt.Sprintf("%s[%d]", path, i), commit, out)
 		}
@@ -103,6 +120,11 @@ func alterWalk(v reflect.Value, path string, commit func(), out *[]Alteration) {
 			elem := reflect.New(v.Type().Elem()).Elem()
 			elem.Set(v.MapIndex(k))
 			alterWalk(elem, fmt.Sprintf("%s[%v]", path, shortKey(fmt.Sprint(k))), func() { vv.SetMapIndex(k, elem); commit() }, out)
+		}
+		if v.IsNil() {
+			add("nil-to-empty", func() { vv.Set(reflect.MakeMap(vv.Type())) })
+		} else if v.Len() == 0 {
+			add("empty-to-nil", func() { vv.Set(reflect.Zero(vv.Type())) })
 		}
 		if v.Type().Key().Kind() == reflect.String {
 			add("add-entry", func() {
